@@ -208,7 +208,20 @@ def reorder_properties(doc, rnd):
     return "properties of " + ", ".join(done) + " listed in reverse order"
 
 
-EDITS = [new_structure, keyword_properties, new_properties, literal_property, extends_and_mixins, closed_enum, enum_value,
+def explicit_defaults(doc, rnd):
+    """The same metamodel spelt differently: `"optional": false` written out on properties that leave the key out (lsp.schema.json:
+    an omitted `optional` means mandatory), among them null-admitting ones and those of a few base structures.  Nothing the
+    generators emit may depend on the spelling."""
+    nullish = [(s, p) for s in doc["structures"] for p in s["properties"]
+               if "optional" not in p and p["type"]["kind"] == "or" and any(i.get("kind") == "base" and i.get("name") == "null" for i in p["type"]["items"])]
+    plain = [(s, p) for s in doc["structures"] for p in s["properties"] if "optional" not in p and (s, p) not in nullish]
+    chosen = nullish + rnd.sample(plain, min(25, len(plain)))
+    for _, p in chosen:
+        p["optional"] = False
+    return f'explicit "optional": false on {len(chosen)} mandatory properties ({len(nullish)} of them null-admitting, e.g. {nullish[0][0]["name"]}.{nullish[0][1]["name"]})'
+
+
+EDITS = [explicit_defaults, new_structure, keyword_properties, new_properties, literal_property, extends_and_mixins, closed_enum, enum_value,
          request_with_typename, request_without_typename, marks, remove_optional, remove_probed_optional, reorder_properties]
 
 
